@@ -20,6 +20,7 @@ type zzGen struct {
 	Objs       []parser.K8sObject
 	Book       *zzCidrBook
 	ConcreteIP bool // ipBlock peers use fixed CIDRs (harnesses that need concrete peer names)
+	BarePods   bool // workloads are Pod manifests (the eval command addresses pods by name) instead of Deployments
 }
 
 func zzPortVar(name string) int32 {
@@ -30,8 +31,10 @@ func zzPortVar(name string) int32 {
 
 // zzBaseWorld: pods a,b in ns1 and (optionally) c in ns2; with or without Namespace objects.
 // Pod a declares the container ports http (TCP, symbolic number) and dns (UDP 53).
-func zzBaseWorld(withC, nsObjs bool) *zzGen {
-	g := &zzGen{W: &zzWorld{}, Book: &zzCidrBook{}}
+func zzBaseWorld(withC, nsObjs bool) *zzGen { return zzBaseWorldK(withC, nsObjs, false) }
+
+func zzBaseWorldK(withC, nsObjs, barePods bool) *zzGen {
+	g := &zzGen{W: &zzWorld{}, Book: &zzCidrBook{}, BarePods: barePods}
 	hp := zzPortVar("a.http")
 	aPorts := []corev1.ContainerPort{{Name: "http", ContainerPort: hp, Protocol: corev1.ProtocolTCP}, {Name: "dns", ContainerPort: 53, Protocol: corev1.ProtocolUDP}}
 	g.addPod("ns1", "a", map[string]string{"app": "a"}, aPorts)
@@ -56,6 +59,10 @@ func zzBaseWorld(withC, nsObjs bool) *zzGen {
 func (g *zzGen) addPod(ns, name string, labels map[string]string, ports []corev1.ContainerPort) *zzWPod {
 	p := &zzWPod{Ns: ns, Name: name, Labels: labels, Ports: ports}
 	g.W.Pods = append(g.W.Pods, p)
+	if g.BarePods {
+		g.Objs = append(g.Objs, zzPodObj(ns, name, labels, ports, ""))
+		return p
+	}
 	g.Objs = append(g.Objs, zzDeployObj(ns, name, labels, ports))
 	return p
 }
